@@ -159,12 +159,9 @@ func (tt *TagTree) AddTagValue(mName, val []byte, valueType jp.ValueType, tsid u
 	var hashVal uint64
 	switch valueType {
 	case jp.String:
-		if value, err := jp.ParseString(val); err != nil {
-			log.Errorf("TagTree.AddTagValue: Failed to parse %v as string; err=%v", val, err)
-			return fmt.Errorf("AddTagValue: Error in raw tag value conversion %T. Error: %v", val, err)
-		} else {
-			hashVal = xxhash.Sum64String(value)
-		}
+		// val is the tag value itself (the protocol decoders already removed any JSON escaping):
+		// a backslash in it is data, not the start of an escape sequence
+		hashVal = xxhash.Sum64(val)
 	case jp.Number:
 		if value, err := jp.ParseFloat(val); err != nil {
 			log.Errorf("TagTree.AddTagValue: Failed to parse %v as float; err=%v", val, err)
@@ -438,11 +435,9 @@ func (tree *TagTree) encodeTagsTree() ([]byte, error) {
 			id += 8
 			switch tInfo.tagValueType {
 			case jp.String:
-				value, err := jp.ParseString(tInfo.tagValue)
-				if err != nil {
-					log.Errorf("TagTree.encodeTagsTree: Failed to parse %v as string for tag tree %v. Error: %v", tInfo.tagValue, tree.name, err)
-					return nil, err
-				}
+				// the tag value itself, see AddTagValue
+				value := string(tInfo.tagValue)
+				var err error
 				if _, err = tagBuf.Write(sutils.VALTYPE_ENC_SMALL_STRING[:]); err != nil {
 					log.Errorf("TagTree.encodeTagsTree: Failed to write tag value type: %+v to buffer for tag tree %v. Error: %v",
 						sutils.VALTYPE_ENC_SMALL_STRING[:], tree.name, err)
